@@ -71,13 +71,42 @@ theorem step_word_agrees (e : WordEntry) (he : e ∈ wordTable) (s : IState) (hc
   · exact (step_binop s _ _ _ _ hcode rfl hg).trans (congrArg _ (binopRule_congr _ _ _ _ s (fun a b _ hb => shr_eq a b hb) hw))
   · exact (step_binop s _ _ _ _ hcode rfl hg).trans (congrArg _ (binopRule_congr _ _ _ _ s (fun a b _ hb => sar_eq a b hb) hw))
 
-/-- every environment read of the table -/
+/-- CODESIZE in legacy code (`assume!(!is_eof)`: in an EOF frame the handler is a fault) -/
+theorem step_codesize (s : IState) (hcode : s.code[s.pc]? = some 0x38) (hwf : s.gas.remaining < U64)
+    (hleg : s.isEof = false) :
+    step s = .pure (pushValRule GasCalc.BASE GasCalc.SpecId.FRONTIER (fun s => s.origLen) s) := by
+  unfold step
+  rw [hcode]
+  have hdec : decode 0x38 = .codesize := rfl
+  simp only [hdec, execInstr, execPure]
+  show Outcome.pure (codesizeI (adv s)).toDone = _
+  congr 1
+  unfold codesizeI pushValRule
+  have hen : enabled s.spec GasCalc.SpecId.FRONTIER = true := by simp [enabled, GasCalc.SpecId.FRONTIER]
+  simp only [hen, Bool.not_true, Bool.false_eq_true, if_false]
+  by_cases hg : s.gas.remaining < GasCalc.BASE
+  · rw [bind_halt _ _ _ _ _ _ (gasCharge_fail (adv s) _ hg), if_pos hg]; rfl
+  · rw [bind_ok _ _ _ _ _ (gasCharge_ok (adv s) _ hwf (by show _ ≤ s.gas.remaining; omega)), if_neg hg]
+    have ha : assumeNotEof (charge (adv s) GasCalc.BASE) = .ok () (charge (adv s) GasCalc.BASE) := by
+      have : (charge (adv s) GasCalc.BASE).isEof = false := hleg
+      simp [assumeNotEof, this]
+    have hget : getS (charge (adv s) GasCalc.BASE) = .ok _ _ := rfl
+    show ((assumeNotEof >>= fun _ => getS >>= fun s' => push s'.origLen) (charge (adv s) GasCalc.BASE)).toDone = _
+    rw [bind_ok _ _ _ _ _ ha, bind_ok _ _ _ _ _ hget]
+    simp only [push, Stack.push, Stack.STACK_LIMIT]
+    have hst : (charge (adv s) GasCalc.BASE).stack = s.stack := rfl
+    rw [hst]
+    by_cases hl : s.stack.length = 1024
+    · simp only [hl, if_true, Exec.toDone, stackErr]
+    · simp only [hl, if_false, Exec.toDone]
+
+/-- every environment read of the table (CODESIZE: in legacy code) -/
 theorem step_env_agrees (e : EnvEntry) (he : e ∈ envTable) (s : IState) (hcode : s.code[s.pc]? = some e.op)
-    (hwf : WF s) : step s = .pure (e.rule s) := by
+    (hwf : WF s) (hleg : e.op = 0x38 → s.isEof = false) : step s = .pure (e.rule s) := by
   have hg := hwf.gas
   simp only [envTable, List.mem_cons, List.not_mem_nil, or_false] at he
   rcases he with rfl | rfl | rfl | rfl | rfl | rfl | rfl | rfl | rfl | rfl | rfl | rfl | rfl | rfl | rfl | rfl | rfl
-    | rfl <;> exact step_pushVal s _ _ _ _ hcode rfl hg
+    | rfl <;> first | exact step_pushVal s _ _ _ _ hcode rfl hg | exact step_codesize s hcode hg (hleg rfl)
 
 set_option maxRecDepth 8000 in
 theorem decode_dup (n : Fin 16) : decode (0x80 + n.val) = .dup n := by
